@@ -322,6 +322,14 @@ fn main() {
             fs::write(out.join("models.ts"), "// stale generated file").map_err(|e| e.to_string())?;
             // kept copies of earlier output: generated-looking content under names that are not reserved
             for d in ["api-v1.ts", "types.backup.ts", "notes/types.ts"] { fs::write(out.join(d), "/**\n * Auto-generated TypeScript bindings for Tauri commands\n * Generated by tauri-typegen v0.4.2\n * Generated at: 2025-01-01T00:00:00+00:00\n * Generator: none\n *\n * Do not edit manually - regenerate using: cargo tauri-typegen generate\n */\n\nexport interface Kept { id: number; }\n").map_err(|e| e.to_string())?; }
+            // a stale reserved name that is a symbolic link to a hand-written file elsewhere: the link may go, its target may not
+            #[cfg(unix)]
+            {
+                fs::create_dir_all(proj.join("src/validation")).map_err(|e| e.to_string())?;
+                fs::write(proj.join("src/validation/schemas.ts"), "// hand written\nexport const x = 1;\n").map_err(|e| e.to_string())?;
+                let _ = std::os::unix::fs::symlink("../validation/schemas.ts", out.join("schemas.ts"));
+                let _ = std::os::unix::fs::symlink(proj.join("src/validation/schemas.ts"), out.join("bindings.ts"));
+            }
             // a cache file from elsewhere (merged, edited): whatever it lists, only reserved names may be removed
             fs::write(out.join(".typecache"), "{\n  \"version\": 1,\n  \"commands_hash\": \"0\",\n  \"structs_hash\": \"0\",\n  \"config_hash\": \"0\",\n  \"combined_hash\": \"0\",\n  \"generated_files\": [\"types.ts\", \"helpers.ts\", \"README.md\", \"notes/keep.txt\", \"../../src-tauri/src/lib.rs\", \"../../tauri.conf.json\"]\n}\n").map_err(|e| e.to_string())?;
             let conf_before = fs::read_to_string(proj.join("tauri.conf.json")).unwrap_or_default();
@@ -338,6 +346,8 @@ fn main() {
             for (k, v) in &before { if !reserved(k) && after.get(k) != Some(v) { return Err(format!("foreign file {:?} in the output directory was modified or removed by the build-script run", k)); } }
             for k in after.keys() { if !before.contains_key(k) && !reserved(k) { return Err(format!("file {:?} was created: not a reserved generated name", k)); } }
             if fs::read_to_string(out.join("notes/keep.txt")).ok().as_deref() != Some("foreign notes/keep.txt") { return Err("notes/keep.txt changed".into()); }
+            #[cfg(unix)]
+            if fs::read_to_string(proj.join("src/validation/schemas.ts")).ok().as_deref() != Some("// hand written\nexport const x = 1;\n") { return Err("src/validation/schemas.ts (outside the output directory, the target of a stale symbolic link named schemas.ts) was modified or removed".into()); }
             if fs::read_to_string(proj.join("tauri.conf.json")).unwrap_or_default() != conf_before { return Err("tauri.conf.json was modified".into()); }
             if fs::read_to_string(src.join("lib.rs")).unwrap_or_default() != src_before { return Err("a project source was modified".into()); }
             Ok(format!("{:?}", after.keys().filter(|k| !before.contains_key(*k)).collect::<Vec<_>>()))
